@@ -122,7 +122,9 @@ func GenPackage(t *rapid.T, o GenOpts, nfiles, perFile int) *PackageSpec {
 		case 2:
 			f.Layout = 4
 		case 3:
-			f.Layout = 1 + uniform(t, "layoutbits", 7)
+			f.Layout = 1 + uniform(t, "layoutbits", 15)
+		case 4:
+			f.Layout = 8
 		}
 		switch uniform(t, "oddimp", 8) {
 		case 0:
